@@ -1,7 +1,9 @@
 package c12
 
 import (
+	"os"
 	"testing"
+	"time"
 
 	"verif/harness/rig/run"
 )
@@ -10,5 +12,12 @@ import (
 func TestHPDev(t *testing.T) {
 	r := run.New(t, "C12", "exploration")
 	defer r.Finish()
+	if os.Getenv("HP_WD") != "" {
+		run.BubbleWatchdog = 8 * time.Second
+		go func() {
+			time.Sleep(6 * time.Second)
+			os.WriteFile("/tmp/c12hp/stacks.txt", []byte(run.Stacks()), 0o644)
+		}()
+	}
 	holepunchPart(t, r)
 }
